@@ -134,6 +134,7 @@ func RunProgOn(im *Impl, pc *ProgCase) (results []StepResult, firstDiff int, inc
 	db := ref.NewDB()
 	world := ref.NewWorld(db, budget)
 	world.RetractSkipsErased = RetractPolicy() == "skip"
+	multifile := map[string]bool{} // predicates whose current definition comes from texts that declare them multifile
 	for i := range pc.Steps {
 		st := &pc.Steps[i]
 		var r StepResult
@@ -143,6 +144,26 @@ func RunProgOn(im *Impl, pc *ProgCase) (results []StepResult, firstDiff int, inc
 			refFailed := ""
 			staged := db.Clone()
 			seenPred := map[string]bool{}
+			// multifile/1: the flag belongs to the text as a whole (wherever the directive stands); the clauses of a
+			// predicate are appended to the earlier definition when that one and this text both declare it, and
+			// replace it otherwise
+			textMF := map[string]bool{}
+			for _, jc := range st.Clauses {
+				c := ref.Dec(jc, map[string]*ref.Var{})
+				if d, ok := c.(*ref.Cmp); ok && d.F == ":-" && len(d.Args) == 1 {
+					if dd, ok := ref.Deref(d.Args[0]).(*ref.Cmp); ok && dd.F == "multifile" && len(dd.Args) == 1 {
+						if pi, ok := ref.Deref(dd.Args[0]).(*ref.Cmp); ok && pi.F == "/" && len(pi.Args) == 2 {
+							if n, ok := ref.Deref(pi.Args[0]).(ref.Atom); ok {
+								if a, ok := ref.Deref(pi.Args[1]).(ref.Int); ok {
+									textMF[ref.Key(string(n), int(a))] = true
+									continue
+								}
+							}
+						}
+						refFailed = "multifile/1 with an argument this runner does not support"
+					}
+				}
+			}
 			for _, jc := range st.Clauses {
 				c := ref.Dec(jc, map[string]*ref.Var{})
 				sb.WriteString(ref.ClauseText(c))
@@ -156,6 +177,9 @@ func RunProgOn(im *Impl, pc *ProgCase) (results []StepResult, firstDiff int, inc
 					}
 					if dd, ok := ref.Deref(d.Args[0]).(*ref.Cmp); ok && dd.F == "discontiguous" && len(dd.Args) == 1 {
 						continue // the reference database does not care where the clauses of a predicate stand
+					}
+					if dd, ok := ref.Deref(d.Args[0]).(*ref.Cmp); ok && dd.F == "multifile" && len(dd.Args) == 1 {
+						continue // collected above
 					}
 					refFailed = "directive not supported by this runner"
 					continue
@@ -194,8 +218,8 @@ func RunProgOn(im *Impl, pc *ProgCase) (results []StepResult, firstDiff int, inc
 					k := ref.Key(n, a)
 					if !seenPred[k] {
 						seenPred[k] = true
-						// consulting replaces an earlier definition
-						if p, ok := staged.Preds[k]; ok {
+						// consulting replaces an earlier definition, unless both are multifile
+						if p, ok := staged.Preds[k]; ok && !(multifile[k] && textMF[k]) {
 							p.Clauses = nil
 						}
 					}
@@ -211,6 +235,23 @@ func RunProgOn(im *Impl, pc *ProgCase) (results []StepResult, firstDiff int, inc
 				inconclusive = true
 				results = append(results, r)
 				return
+			}
+			for k := range textMF {
+				if !seenPred[k] {
+					refFailed = "multifile/1 for a predicate without clauses in the text"
+				}
+			}
+			if refFailed != "" {
+				r.RefState, r.Verdict, r.Why = "unsupported", "inconclusive", refFailed
+				inconclusive = true
+				results = append(results, r)
+				return
+			}
+			for k := range seenPred {
+				if len(k) > 3 && k[:3] == "-->" {
+					continue
+				}
+				multifile[k] = textMF[k]
 			}
 			*db = *staged
 			r.RefState = "ok"
